@@ -210,6 +210,7 @@ func c20Kinds(full bool) []c20Rel {
 }
 
 func C20(r *core.Run) {
+	r.CLIOnly = true
 	dir := ""
 	if !r.IsWorker() {
 		dir = core.Scratch("c20")
